@@ -682,6 +682,11 @@ class Evaluator:
                 and isinstance(node.slice.elts[1], ast.Constant) and node.slice.elts[1].value is Ellipsis:
             # obj[i, ...]: the trailing Ellipsis selects everything in the remaining dimensions = obj[i]
             return self.subscript(base, self.ev(node.slice.elts[0], st), st, node)
+        if isinstance(base, VList) and isinstance(node.slice, ast.Tuple) and len(node.slice.elts) == 2 \
+                and isinstance(node.slice.elts[1], ast.Constant) and node.slice.elts[1].value is Ellipsis \
+                and isinstance(node.slice.elts[0], ast.Attribute) and node.slice.elts[0].attr == 'newaxis':
+            # x[np.newaxis, ...]: the same block with a leading axis of length 1 (only ever assigned into one slot of a larger array)
+            return base
         if isinstance(base, VList) and isinstance(node.slice, ast.Tuple) and len(node.slice.elts) == 2 and isinstance(node.slice.elts[0], ast.Slice) \
                 and isinstance(node.slice.elts[1], ast.Constant) and node.slice.elts[1].value is Ellipsis:
             # x[a:b, ...]: the trailing Ellipsis selects everything in the remaining dimensions = x[a:b]
